@@ -29,6 +29,9 @@ Definition dist_eqb (a b : dist) : bool :=
   | _, _ => false
   end.
 
+Definition ocov_eqb (a b : option (list id)) : bool :=
+  match a, b with Some x, Some y => setp_eqb x y | None, None => true | _, _ => false end.
+
 Definition param_of (ps : list param) (y : id) : option param := find (fun p => Pos.eqb (p_sym p) y) ps.
 
 Definition verdict_u (c : ucase) : list nat :=
@@ -68,5 +71,10 @@ Definition verdict_u (c : ucase) : list nat :=
                      removed_p)) 26 ++
   (if wf_rvs (u_rvs c)
    then tag (forallb (fun d => forallb (fun n => negb (rv_reason S d n) || memp n (rvs_names I)) (dist_names d))
-                     (u_rvs c)) 25
+                     (u_rvs c)) 25 ++
+        (* two variables that are in one distribution afterwards have the covariance entry they had before *)
+        tag (forallb (fun d' => forallb (fun n => forallb (fun m =>
+                        existsb (fun d => memp n (dist_names d) && memp m (dist_names d) &&
+                                          ocov_eqb (dist_cov d' n m) (dist_cov d n m)) (u_rvs c))
+                        (dist_names d')) (dist_names d')) I) 23
    else [204]).
